@@ -11,6 +11,7 @@ Proofs: Proofs/LitParts, LitFloatParse, Literals, and the Lex* files.
 -/
 import EvalexprVerif.Proofs.Literals
 import EvalexprVerif.Proofs.AgreeToken
+import EvalexprVerif.Proofs.Nearest
 
 namespace Evalexpr.Spec.C06
 open Evalexpr Evalexpr.Spec
@@ -54,6 +55,30 @@ theorem C06_float_roundRat (m ex : Str) (hm : isMantissa m = true) (hex : isDigi
     F64.parseBits (m ++ e :: ex) =
       some (F64.roundRat (floatLitValue m false ex).1 (floatLitValue m false ex).2) :=
   Evalexpr.Spec.C06_float_roundRat m ex hm hex e he hg
+/-- **C06 (nearest double)**: the bits a float literal `m e x` denotes are a finite double closest to the
+literal's exact decimal value n/d (`floatLitValue`), compared exactly: no finite non-negative double
+is strictly closer; and on a tie the significand is even (`roundRat_ties_even`), and the result is
++infinity exactly at or beyond the overflow threshold (`roundRat_overflow`). -/
+theorem C06_nearest (m ex : Str) (hm : isMantissa m = true) (hex : isDigits ex = true) (e : Char)
+    (he : e = 'e' ∨ e = 'E') (hg : inGuardBand m false ex) (hd : 0 < (floatLitValue m false ex).2)
+    (hfin : isFinitePos (F64.roundRat (floatLitValue m false ex).1 (floatLitValue m false ex).2) = true)
+    (y : UInt64) (hy : isFinitePos y = true) :
+    ∃ bits, F64.parseBits (m ++ e :: ex) = some bits ∧
+      scaledError (floatLitValue m false ex).1 (floatLitValue m false ex).2 bits ≤
+        scaledError (floatLitValue m false ex).1 (floatLitValue m false ex).2 y := by
+  refine ⟨_, C06_float_roundRat m ex hm hex e he hg, ?_⟩
+  by_cases hn : (floatLitValue m false ex).1 = 0
+  · rw [hn, roundRat_zero]
+    simp [scaledError, scaledValue, expField, fracField]
+  · exact roundRat_nearest _ _ (Nat.pos_of_ne_zero hn) hd hfin y hy
+theorem C06_ties_even (n d : Nat) (hn : 0 < n) (hd : 0 < d)
+    (hfin : isFinitePos (F64.roundRat n d) = true) (y : UInt64) (hy : isFinitePos y = true)
+    (hne : y ≠ F64.roundRat n d) (htie : scaledError n d y = scaledError n d (F64.roundRat n d)) :
+    fracField (F64.roundRat n d) % 2 = 0 := roundRat_ties_even n d hn hd hfin y hy hne htie
+theorem C06_overflow (n d : Nat) (hn : 0 < n) (hd : 0 < d) :
+    (F64.roundRat n d = 0x7ff0000000000000 ↔ overflows n d = true) ∧
+    (overflows n d = false → isFinitePos (F64.roundRat n d) = true) := roundRat_overflow n d hn hd
+
 theorem C06_word (w : Str) (hw : isWord w = true) (h1 : isDecLit w = false) (h2 : isHexLit w = false)
     (h3 : isFloatLit w = false) (h4 : w ≠ cl!"true") (h5 : w ≠ cl!"false") : lexWord w = none :=
   Evalexpr.Spec.C06_word w hw h1 h2 h3 h4 h5
